@@ -61,6 +61,14 @@ pub struct Exec {
     pub ntypes: u64,
     stores_this_life: u64,
     pub log: Vec<String>,
+    /// what the engine really answered to the last `R` (also when the compared line is `racy`)
+    pub last_real_read: String,
+    pub last_read_racy: bool,
+    /// labels of segment directories seen during this process lifetime / currently present
+    seen_labels: std::collections::BTreeSet<String>,
+    cur_labels: std::collections::BTreeSet<String>,
+    /// a directory label reappeared within one lifetime (per-label caches may be stale)
+    pub tainted: bool,
 }
 
 fn arm_all(s: &mut Session) {
@@ -77,7 +85,7 @@ impl Exec {
             assert!(r.map(|r| r.ok()).unwrap_or(false), "DEFINE failed");
         }
         arm_all(&mut s);
-        Exec { s, ntypes, stores_this_life: 0, log: vec![] }
+        Exec { s, ntypes, stores_this_life: 0, log: vec![], last_real_read: String::new(), last_read_racy: false, seen_labels: Default::default(), cur_labels: Default::default(), tainted: false }
     }
 
     fn hits(&mut self, p: &str) -> u64 {
@@ -167,10 +175,41 @@ impl Exec {
         self.s = Session::start(&root, &cfg);
         arm_all(&mut self.s);
         self.stores_this_life = 0;
+        self.tainted = false;
+        self.cur_labels = self.dir_labels();
+        self.seen_labels = self.cur_labels.clone();
+    }
+
+    fn dir_labels(&self) -> std::collections::BTreeSet<String> {
+        std::fs::read_dir(self.s.shard_data_dir(0))
+            .map(|rd| {
+                rd.flatten()
+                    .filter(|e| e.path().is_dir())
+                    .map(|e| e.file_name().to_string_lossy().to_string())
+                    .filter(|n| !n.is_empty() && n.chars().all(|c| c.is_ascii_digit()))
+                    .collect()
+            })
+            .unwrap_or_default()
+    }
+    fn track_labels(&mut self) {
+        let now = self.dir_labels();
+        for l in now.difference(&self.cur_labels.clone()) {
+            if self.seen_labels.contains(l) {
+                self.tainted = true;
+            }
+            self.seen_labels.insert(l.clone());
+        }
+        self.cur_labels = now;
     }
 
     /// Executes one op; reads and listings return the canonical observation line.
     pub fn exec(&mut self, op: &Op) -> Option<String> {
+        let out = self.exec_inner(op);
+        self.track_labels();
+        out
+    }
+
+    fn exec_inner(&mut self, op: &Op) -> Option<String> {
         match op {
             Op::S { k, ctx, ty } => {
                 let r = self.s.cmd(&format!("STORE ev{ty} FOR c{ctx} PAYLOAD {{\"k\":{k}}}"));
@@ -197,7 +236,14 @@ impl Exec {
                 self.run_all();
                 None
             }
-            Op::R => Some(self.read()),
+            Op::R => {
+                // reads in racy states are not compared with the model (see `racy_state`)
+                let racy = self.racy_state();
+                let line = self.read();
+                self.last_read_racy = racy;
+                self.last_real_read = line.clone();
+                Some(if racy { "racy".to_string() } else if self.tainted { "stale".to_string() } else { line })
+            }
             Op::X => {
                 self.sync_worker();
                 self.wait_wal_drained();
@@ -308,10 +354,17 @@ impl Exec {
             }
         }
         segs.sort();
+        // with several event types compaction output ids depend on hash-map iteration order in
+        // the planner: only the number of directories per level is compared
+        let shown: Vec<u64> = if self.ntypes <= 1 {
+            segs.clone()
+        } else {
+            (0..6u64).map(|lvl| segs.iter().filter(|s| **s / 10_000 == lvl).count() as u64).collect()
+        };
         format!(
             "wal={} segs={}",
             if wal.is_empty() { "-".to_string() } else { wal.iter().map(|(i, n)| format!("{i}:{n}")).collect::<Vec<_>>().join(",") },
-            if segs.is_empty() { "-".to_string() } else { segs.iter().map(|s| s.to_string()).collect::<Vec<_>>().join(",") }
+            if shown.is_empty() { "-".to_string() } else { shown.iter().map(|s| s.to_string()).collect::<Vec<_>>().join(",") }
         )
     }
 }
